@@ -28,7 +28,7 @@ static std::vector<Cfg> with_bystanders(const Cfg& base, bool thorough) {
    { Cfg c = base; Arg x = mk('x', "xray", INT); x.checks = {ck(3, 1, 9)}; c.args.push_back(x); r.push_back(c); }
    { Cfg c = base; Arg y = mk('y', "alphabetic", STR); y.hidden = true; c.args.insert(c.args.begin(), y); for (auto& a : c.args) { for (int& e : a.excl) ++e; for (int& e : a.req) ++e; } for (auto& h : c.hcs) for (int& m : h.members) ++m; r.push_back(c); }
    if (thorough) {
-      { Cfg c = base; Arg z = mk('z', "be", FLAG); z.deprecated = true; Arg w = mk('w', "gam", VECINT); w.card = 1; w.cardA = 2; c.args.push_back(z); c.args.push_back(w); r.push_back(c); }
+      { Cfg c = base; Arg z = mk('z', "be", FLAG); z.deprecated = true; Arg w = mk('u', "gam", VECINT); w.card = 1; w.cardA = 2; c.args.push_back(z); c.args.push_back(w); r.push_back(c); }
       { Cfg c = base; Arg x = mk('x', "xray", INT), y = mk('y', "yankee", INT); c.args.push_back(x); c.args.push_back(y); HConstraint h; h.type = 2; h.members = {int(c.args.size()) - 2, int(c.args.size()) - 1}; c.hcs.push_back(h); r.push_back(c); }
    }
    return r;
